@@ -236,6 +236,11 @@ pub fn guard_timeout<T: Send + 'static>(secs: u64, f: impl FnOnce() -> T + Send 
     }
 }
 
+thread_local! {
+    /// source location of the last panic raised on this thread (set by the panic hook)
+    static LAST_PANIC_FILE: std::cell::RefCell<String> = std::cell::RefCell::new(String::new());
+}
+
 /// Marker payload used by harness callbacks to unwind out of a subject that
 /// exceeded its evaluation budget.
 pub const BUDGET: &str = "__verif_budget_exhausted__";
@@ -247,7 +252,11 @@ pub fn verif_root() -> String {
 impl Report {
     /// argv: <bin> <Cxx> <quick|thorough>   or   <bin> replay <file>
     pub fn from_args(level: &'static str) -> Report {
-        std::panic::set_hook(Box::new(|_| {}));
+        // silent hook that remembers where the last panic of this thread was raised (see run_guarded)
+        std::panic::set_hook(Box::new(|info| {
+            let loc = info.location().map(|l| format!("{}:{}", l.file(), l.line())).unwrap_or_default();
+            LAST_PANIC_FILE.with(|f| *f.borrow_mut() = loc);
+        }));
         let args: Vec<String> = std::env::args().collect();
         let root = verif_root();
         let (id, tier, mode) = if args.len() >= 3 && args[1] == "replay" {
@@ -335,7 +344,25 @@ impl Report {
     }
 
     fn run_guarded<C: Check>(c: &C, p: &C::P) -> Result<Outcome, String> {
-        guard(|| c.run(p))
+        LAST_PANIC_FILE.with(|f| f.borrow_mut().clear());
+        match guard(|| c.run(p)) {
+            Ok(o) => Ok(o),
+            Err(m) => {
+                // A panic that escaped the check's own guards.  When it was raised in the library's sources (an accessor
+                // of a returned object indexing past its end, say) it is a violation of the library at this point, not
+                // a failure of the harness: it is reported with a replayable point like any other violation.  Panics
+                // raised anywhere else (harness code, other crates) stay machinery errors.
+                let file = LAST_PANIC_FILE.with(|f| f.borrow().clone());
+                if m != BUDGET && (file.contains("/repo/src/") || file.contains("bacon")) {
+                    let mut o = Outcome::new();
+                    o.viol("bacon_sci (call outside the check's own guards)", "no-panic", format!("{}: panicked at {}: {}", serde_json::to_string(p).unwrap_or_default(), file, m));
+                    o.sig = "library-panic-outside-guards".to_string();
+                    Ok(o)
+                } else {
+                    Err(if file.is_empty() { m } else { format!("{} (at {})", m, file) })
+                }
+            }
+        }
     }
 
     pub fn run<C: Check>(&mut self, c: &C) {
